@@ -78,7 +78,7 @@ Section Core.
   Lemma i32_as_usize_nonneg z : wf_z z -> 0 <= i32_as_usize z.
   Proof. rewrite wf_z_iff. unfold i32_as_usize, min32, max32, two64. intros H. destruct (z <? 0) eqn:E; lia. Qed.
 
-  Lemma code_insert_safe : sem_safe (purep code_insert).
+  Lemma code_insert_safe : sem_safe0 (purep code_insert).
   Proof.
     safe_intro unf_x.
     destruct sint as [|idx ir]; [wf_leaf|]. destruct scode as [|t [|x r]]; try solve [wf_leaf].
